@@ -1,8 +1,8 @@
 (* Extraction of the executable models for the correspondence check.
    Only ExtrOcamlBasic is used: bool/option/unit/list/prod/sumbool/sumor map to OCaml's,
    Z/N/positive/nat stay extracted inductives.  No Extract Constant of our own. *)
-From PV Require Import Model.Prelude Model.Bits Model.Sig Model.Matcher.
+From PV Require Import Model.Prelude Model.Bits Model.Sig Model.Matcher Model.Select.
 Require Extraction ExtrOcamlBasic.
 Extraction Language OCaml.
 Set Extraction Output Directory ".".
-Extraction "model.ml" tcp_match win_multi.
+Extraction "model.ml" tcp_match win_multi fp_tcp.
